@@ -294,6 +294,31 @@ func checkC17(c *CaseC17, fl *Fails) {
 				got = append(got, p[1])
 			}
 		}
+		// the returned structures belong to the caller: a later conversion must not change them
+		oc := *c
+		oc.F = c.F - 3
+		if len(groups) > 0 && c17Run(&oc) <= 4096 {
+			other := ref.Box{H: h, X: x, Y: y, V: c.V, F: c.F - 3}.Ext()
+			if c.Spatial {
+				other = strconv.FormatInt(h, 10) + "/" + strconv.FormatInt(c.F-3, 10) + "/" + strconv.FormatInt(x, 10) + "/" + strconv.FormatInt(y, 10)
+				_, _ = transform.ConvertSpatialIDsToQuadkeysAndVerticalIDs([]string{other}, h, c.Z, mx, mn)
+			} else {
+				_, _ = transform.ConvertExtendedSpatialIDsToQuadkeysAndVerticalIDs([]string{other}, h, c.Z, mx, mn)
+			}
+			var after []int64
+			for _, g := range groups {
+				for _, p := range g.InnerIDList() {
+					after = append(after, p[1])
+				}
+			}
+			same := len(after) == len(got)
+			for i := range after {
+				same = same && after[i] == got[i]
+			}
+			if !same {
+				fl.Add("result-retention", "%s: the result of the call changed after a later conversion of another voxel: %v -> %v", desc, got, after)
+			}
+		}
 		last := (int64(1) << uint(c.Z)) - 1
 		for _, g := range got {
 			if g < 0 || g > last {
